@@ -51,6 +51,22 @@ theorem invariant_run {σ α : Type} (step : σ → α → Option σ) (Inv : σ 
       simp only [h] at hrun
       exact ih s1 (hstep s a s1 hs h) hrun
 
+/-- The invariant rule for runs whose actions all satisfy a side condition `G` (e.g. a static configuration). -/
+theorem invariant_run_guarded {σ α : Type} (step : σ → α → Option σ) (G : α → Prop) (Inv : σ → Prop)
+    (hstep : ∀ s a s', G a → Inv s → step s a = some s' → Inv s')
+    (s : σ) (hs : Inv s) (as : List α) (hg : ∀ a ∈ as, G a) (s' : σ) (hrun : runFrom step s as = some s') : Inv s' := by
+  induction as generalizing s with
+  | nil =>
+    simp only [runFrom] at hrun
+    cases hrun; exact hs
+  | cons a as ih =>
+    simp only [runFrom] at hrun
+    cases h : step s a with
+    | none => simp [h] at hrun
+    | some s1 =>
+      simp only [h] at hrun
+      exact ih s1 (hstep s a s1 (hg a (by simp)) hs h) (fun b hb => hg b (by simp [hb])) hrun
+
 theorem invariant_reachable {σ α : Type} (step : σ → α → Option σ) (Inv : σ → Prop)
     (hstep : ∀ s a s', Inv s → step s a = some s' → Inv s')
     (s s' : σ) (hs : Inv s) (hr : ReachableFrom step s s') : Inv s' := by
